@@ -156,6 +156,21 @@ Theorem C08_notifications_independent_of_response_delivery : forall cfg brqs ost
 Proof. exact run_b_independent. Qed.
 Print Assumptions C08_notifications_independent_of_response_delivery.
 
+(** The ledger does not depend on who listens: whether a receiver is subscribed to the account
+    stream while a request is processed ([run_s] delivers the notifications only then) changes
+    neither the exchange state — balances, id counter, STORED TRADES — nor any response; by
+    [C08_notifications] the trade list therefore grows by the fill of every accepted order, heard
+    or not, and [C08_queries] answers from it. *)
+Theorem C08_ledger_independent_of_subscribers : forall cfg srqs ost,
+  fst (run_s cfg ost srqs) = fst (run cfg ost (map fst srqs)) /\
+  map fst (snd (run_s cfg ost srqs)) = map fst (snd (run cfg ost (map fst srqs))) /\
+  map snd (snd (run_s cfg ost srqs)) =
+    map (fun x : (rrequest * bool) * (rresp * list event) =>
+           if snd (fst x) then snd (snd x) else [])
+        (combine srqs (snd (run cfg ost (map fst srqs)))).
+Proof. exact run_s_independent. Qed.
+Print Assumptions C08_ledger_independent_of_subscribers.
+
 (** Queries answer from the current account: a snapshot / balance query returns every asset with
     the ledger's amounts, a trade query returns the recorded fills not older than [since]. *)
 Theorem C08_queries : forall cfg st t,
